@@ -1,5 +1,6 @@
 import Proofs.Legacy
 import Proofs.Toy
+import Proofs.StepsTie
 /-!
 # C06 — point addition, doubling, negation, equality and affine conversion implement the curve group
 
@@ -104,6 +105,33 @@ theorem add_correct_partial (hp2 : p ≠ 2) (hH : NoOrder2 H) {X1 Y1 Z1 X2 Y2 Z2
     (hP : IRep p a b H (X1, Y1, Z1) g) (hQ : IRep p a b H (X2, Y2, Z2) h) :
     IRep p a b H (Gen.k_add X1 Y1 Z1 X2 Y2 Z2 p a) (g + h) :=
   k_add_correct hp2 hH hP hQ
+
+/-- the code's own reading of an integer triple as a function (DESIGN's ⟦X,Y,Z⟧): 0 if Y ≡ 0 or Z ≡ 0 -/
+noncomputable def den (p : ℕ) [Fact p.Prime] (a b : ℤ) (t : ℤ × ℤ × ℤ) : Grp (a : ZMod p) (b : ZMod p) :=
+  open Classical in
+  if (t.2.1 : ZMod p) = 0 ∨ (t.2.2 : ZMod p) = 0 then 0
+  else Point.toAffine (shortW (a : ZMod p) (b : ZMod p)) (cast3 p t)
+
+/-- `t` is a valid triple for the subgroup H: it represents some element of H -/
+def Valid (p : ℕ) [Fact p.Prime] (a b : ℤ) (H : AddSubgroup (Grp (a : ZMod p) (b : ZMod p))) (t : ℤ × ℤ × ℤ) : Prop :=
+  ∃ g, IRep p a b H t g
+
+theorem irep_den {t : ℤ × ℤ × ℤ} {g} (h : IRep p a b H t g) : den p a b t = g := by
+  unfold den
+  rcases h.2.2.cases with ⟨h0, hg⟩ | hgood
+  · rw [if_pos (by simpa [cast3] using h0), hg]
+  · rw [if_neg (by simpa [cast3, not_or] using And.intro hgood.2.1 hgood.2.2.1)]
+    exact hgood.2.2.2.2
+
+/-- the headline in the shape of DESIGN Appendix C -/
+theorem add_correct_den_partial (hp2 : p ≠ 2) (hH : NoOrder2 H) {X1 Y1 Z1 X2 Y2 Z2 : ℤ}
+    (hP : Valid p a b H (X1, Y1, Z1)) (hQ : Valid p a b H (X2, Y2, Z2)) :
+    Valid p a b H (Gen.k_add X1 Y1 Z1 X2 Y2 Z2 p a) ∧
+      den p a b (Gen.k_add X1 Y1 Z1 X2 Y2 Z2 p a) = den p a b (X1, Y1, Z1) + den p a b (X2, Y2, Z2) := by
+  obtain ⟨g, hg⟩ := hP
+  obtain ⟨h, hh⟩ := hQ
+  have := k_add_correct hp2 hH hg hh
+  exact ⟨⟨_, this⟩, by rw [irep_den this, irep_den hg, irep_den hh]⟩
 
 /-- `P + Q` on objects (`PointJacobi.__add__`; second operand INFINITY, a `PointJacobi` or a legacy `Point`):
 never raises, and the result denotes `⟦P⟧ + ⟦Q⟧` (INFINITY exactly when the sum is 0) -/
@@ -219,6 +247,20 @@ theorem representation_independence_partial (hp2 : p ≠ 2) (hH : NoOrder2 H) {P
   · rw [infinity_iff_zero hR, infinity_iff_zero hR']
   · rintro J J' rfl rfl
     exact xy_unique hR hR'
+
+/-! ## 4b. tie of the straight-line arithmetic of the object layer to the generated text -/
+
+/-- `contains_point`, the cross-multiplied comparison of `__eq__`, and the arithmetic of `scale`, `x`, `y` in the model
+are the definitions GENERATED from the current source (`Generated/Steps.lean`) -/
+theorem object_arithmetic_is_generated :
+    (∀ c x y, containsPoint c x y = Gen.s_contains_point x y c.p c.a c.b) ∧
+    (∀ p x1 y1 z1 x2 y2 z2, coordsEq p x1 y1 z1 x2 y2 z2 = Gen.s_eq_coords x1 y1 z1 x2 y2 z2 p) ∧
+    (∀ (P : PJ) zi, P.z ≠ 1 → inverseMod P.z P.curve.p = .ok zi →
+      pjScale P = .ok { P with x := (Gen.s_scale_coords P.x P.y zi P.curve.p).1,
+                               y := (Gen.s_scale_coords P.x P.y zi P.curve.p).2, z := 1 } ∧
+      pjX P = .ok (Gen.s_x_coord P.x zi P.curve.p) ∧ pjY P = .ok (Gen.s_y_coord P.y zi P.curve.p)) :=
+  ⟨StepsTie.containsPoint_tie, StepsTie.coordsEq_tie,
+    fun P zi hz hi => ⟨StepsTie.pjScale_tie P zi hz hi, StepsTie.pjX_tie P zi hz hi, StepsTie.pjY_tie P zi hz hi⟩⟩
 
 /-! ## 5. K1 is real: the full statement fails on a curve with a point of order two -/
 
